@@ -647,13 +647,43 @@ func (ex *Exec) floatOp(st *State, n ast.Node, op token.Token, a, b *Term) *Term
 	return exact
 }
 
+// rounded: IEEE-754 round-to-nearest as an uninterpreted monotone function with
+// a relative error of at most 2^-53 (plus a tiny absolute term covering
+// subnormals). Sound for finite results; overflow to infinity and NaN are
+// excluded by the range preconditions of the functions that opt into this model.
 func (ex *Exec) rounded(st *State, exact *Term) *Term {
-	d := Fresh("fpdelta", SReal)
-	eps := RealLit("(/ 1.0 9007199254740992.0)")
-	st.assume(And(Le(Neg(eps), d), Le(d, eps)))
-	r := Fresh("fpres", SReal)
-	st.assume(Eq(r, App("*", SReal, exact, App("+", SReal, RealLit("1.0"), d))))
-	return r
+	DeclareFun("fprnd", []Sort{SReal}, SReal)
+	if len(axiomsFor["fprnd"]) == 0 {
+		x, y := BVar("x", SReal), BVar("y", SReal)
+		rx, ry := App("fprnd", SReal, x), App("fprnd", SReal, y)
+		u := RealLit("(/ 1.0 9007199254740992.0)")
+		tiny := RealLit("(/ 1.0 1000000000000000000000000000000.0)")
+		absx := Ite(Ge(x, RealLit("0.0")), x, Neg(x))
+		bound := App("+", SReal, App("*", SReal, absx, u), tiny)
+		addAxiomFor("fprnd", Forall([]*Term{x}, And(Le(App("-", SReal, x, bound), rx), Le(rx, App("+", SReal, x, bound))), []*Term{rx}))
+		addAxiomFor("fprnd", Forall([]*Term{x, y}, Implies(Le(x, y), Le(rx, ry)), []*Term{rx, ry}))
+	}
+	ex.note("float64 operations modelled as correctly rounded results: monotone, relative error <= 2^-53 (+1e-30 absolute); no overflow/NaN (range preconditions)")
+	return App("fprnd", SReal, exact)
+}
+
+func (ex *Exec) truncToInt(st *State, x *Term) *Term {
+	if ex.floatModel != "rounding-error" {
+		return Ite(Ge(x, RealLit("0.0")), App("to_int", SInt, x), Neg(App("to_int", SInt, Neg(x))))
+	}
+	DeclareFun("fptrunc", []Sort{SReal}, SInt)
+	if len(axiomsFor["fptrunc"]) == 0 {
+		a, b := BVar("a", SReal), BVar("b", SReal)
+		ta, tb := App("fptrunc", SInt, a), App("fptrunc", SInt, b)
+		ra := ToReal(ta)
+		zero := RealLit("0.0")
+		one := RealLit("1.0")
+		addAxiomFor("fptrunc", Forall([]*Term{a}, And(
+			Implies(Ge(a, zero), And(Le(zero, ra), Le(ra, a), Lt(a, App("+", SReal, ra, one)))),
+			Implies(Le(a, zero), And(Le(a, ra), Le(ra, zero), Lt(App("-", SReal, ra, one), a)))), []*Term{ta}))
+		addAxiomFor("fptrunc", Forall([]*Term{a, b}, Implies(Le(a, b), Le(ta, tb)), []*Term{ta, tb}))
+	}
+	return App("fptrunc", SInt, x)
 }
 
 func (ex *Exec) valEq(st *State, n ast.Node, x, y Val) *Term {
@@ -717,9 +747,7 @@ func (ex *Exec) convert(st *State, n ast.Node, v Val, to types.Type) Val {
 	case isInteger(to) && isInteger(from):
 		return ex.convInt(v, from, to)
 	case isInteger(to) && isFloat(from):
-		x := v.term()
-		tr := Ite(Ge(x, RealLit("0.0")), App("to_int", SInt, x), Neg(App("to_int", SInt, Neg(x))))
-		return scalar(to, tr)
+		return scalar(to, ex.truncToInt(st, v.term()))
 	case isFloat(to) && isInteger(from):
 		x := ToReal(v.term())
 		if ex.floatModel == "rounding-error" {
